@@ -89,7 +89,12 @@ impl Method for PhoneticMethod {
         data: &Data,
         config: &Config,
     ) -> Suggestion {
-        let character = keycode_to_char(key);
+        let character = match keycode_to_char(key) {
+            Some(character) => character,
+            // The key doesn't produce any character, so the composition stays as it is.
+            None if self.buffer.is_empty() => return Suggestion::empty(),
+            None => return self.create_suggestion(data, config),
+        };
         self.buffer.push(character);
         let mut suggestion = self.create_suggestion(data, config);
 
